@@ -184,14 +184,21 @@ def make_samplers(pa):
     return RecStat, RecShuffle
 
 
+def LABRANK(x):
+    return 0 if x is None else 1 + sorted(align.LABELS + ["zz2"]).index(x) if x in align.LABELS else 99
+
+
 def _log_draw(sampler, c, kind):
     rec = REC[0]
     if rec is None:
         return
     gt = list(sampler._ground_truth_annotators)
     anns = list(c.annotators)
+    ref = sampler._reference_continuum
+    rec.gtsigs = [sorted([fx(u.segment.duration), LABRANK(u.annotation)] for u in ref[a]) for a in gt] if kind == "shuffle" else []
     rec.draws.append({"seq": next_seq(), "thread": 0 if threading.get_ident() == MAIN else 1, "sid": rec.sid(c),
                       "nunits": int(c.num_units), "nann": len(anns),
+                      "sigs": [sorted([fx(u.segment.duration), LABRANK(u.annotation)] for u in c[a]) for a in anns] if kind == "shuffle" else [],
                       "anns": [gt.index(a) + 1 if a in gt else 0 for a in anns] if kind == "stat" else []})
 
 
@@ -283,6 +290,7 @@ def one_run(pa, c, d, cfg, samplers, sampler=None):
              "cvnum": limbs(cv2.numerator), "cvden": limbs(cv2.denominator), "mode": cfg["mode"],
              "sampler": "stat" if cfg["sampler"] == "stat" else "shuffle", "ngt": len(cfg["gt"] or c.annotators),
              "draws": rec.draws, "submits": rec.submits, "chance": chance, "best": entry(res.best_alignment),
+             "gtsigs": getattr(rec, "gtsigs", []),
              "observed": fx(res.observed_disorder), "expected": fx(res.expected_disorder), "gamma": fx(g),
              "identical": 1 if cfg.get("identical") else 0, "rlo": rlo, "rhi": rhi, "rexc": rexc}
     return res, trace, None
@@ -327,6 +335,14 @@ def gen_config(pa, rng, quick, identical=False, force=None):
     sampler = force.get("sampler") or rng.choice(["stat", "stat", "int_pivot", "float_pivot"])
     if mode == "fast" and not identical and (force.get("big") or rng.random() < 0.5):
         c = big_continuum(pa, rng)
+    if force.get("crowded"):
+        # long units on a short line: the pivot exclusion zones use the continuum up, the sampler's fallback pivot is drawn
+        from pyannote.core import Segment
+        c = pa.Continuum()
+        for a in range(4):
+            for s0 in (0, 3, 6):
+                c.add(f"an{a}", Segment(s0 + a % 2, s0 + a % 2 + rng.choice([5, 6, 7])), rng.choice(align.LABELS))
+        n_ann = 4
     precision = rng.choice([None, None, "low", 0.3, 0.2, 0.5, 0.15] + ([] if quick else ["medium", 0.05]))
     anns = list(c.annotators)
     gt = None
@@ -474,9 +490,9 @@ def run_c06(tier, rep, pa):
     probe = AlgoProbe(pa)
     probe.install()
     configs = []
-    forced = [{"mode": "fast", "big": True, "sampler": "stat"}, {"mode": "fast", "big": True, "sampler": "int_pivot"},
+    forced = [{"sampler": "int_pivot", "crowded": True}, {"mode": "fast", "big": True, "sampler": "stat"}, {"mode": "fast", "big": True, "sampler": "int_pivot"},
               {"sampler": "int_pivot", "gt": True}, {"sampler": "float_pivot", "gt": True}, {"mode": "soft"}, {"mode": "exact", "sampler": "stat", "gt": True}]
-    for k in range(8 if quick else 40):
+    for k in range(9 if quick else 40):
         c, d, cfg = gen_config(pa, rng, True, force=forced[k] if k < len(forced) else None)
         cfg.update(alpha=getattr(d, "alpha", 1), beta=getattr(d, "beta", 1), de=float(d.delta_empty))
         if cfg["precision"] in ("medium", 0.05):
@@ -491,15 +507,23 @@ def run_c06(tier, rep, pa):
             c, d = rebuild(pa, cfg)
             results, labels = [], []
             # real pools
-            for workers in ([1, 2, 16] if quick else [1, 2, 4, 16, None]):
+            for workers in ([1, 3, 16] if quick else [1, 2, 3, 4, 8, 16, None]):
                 install(pa, "real")
                 POOL["workers"] = workers
-                res, trace, ex = one_run(pa, c, d, cfg, samplers)
+                # "however many workers there are": the machine's CPU count as the library sees it changes too
+                real_cpu_count = os.cpu_count
+                if workers is not None:
+                    os.cpu_count = lambda w=workers: w
+                try:
+                    res, trace, ex = one_run(pa, c, d, cfg, samplers)
+                    vec = None if ex is not None else result_vector(res, d, pa, cfg["combined"])
+                finally:
+                    os.cpu_count = real_cpu_count
                 if ex is not None:
                     rep.violation("gamma.raises", {"exception": repr(ex), "config": cfg})
                     continue
-                results.append(result_vector(res, d, pa, cfg["combined"]))
-                labels.append(f"real pool workers={workers}")
+                results.append(vec)
+                labels.append(f"real pool workers={workers} (os.cpu_count patched)")
                 recs.append(trace)
                 metas.append(dict(cfg, pool=labels[-1]))
             POOL["workers"] = None
